@@ -18,3 +18,9 @@ def hist_run(nq=150, nt=400, sq=8, st=14, focus=None, hq=1, ht=3):
     return r
 
 
+
+
+def scn_run(prefix):
+    """directed scenarios whose name starts with `prefix` (harness/scn.go)"""
+    return dict(mode="scn", n_quick=1, n_thorough=1, shards_quick=1, shards_thorough=3,
+                env_quick={"VERIF_SCN": prefix}, env_thorough={"VERIF_SCN": prefix})
